@@ -31,7 +31,8 @@ NullStep(G, nu) ==
        [] g.k = "seq" ->
             CASE g.mode = "of" -> \A i \in 1..Len(g.kids) : nu[g.kids[i]]
               [] g.mode \in {"try", "foa", "many1", "sepby1"} -> nu[g.kids[1]]
-              [] OTHER -> TRUE]
+              [] OTHER -> TRUE
+       [] OTHER -> nu[g.kids[1]]]      \* ltrim / rtrim
 RECURSIVE NullFix(_, _)
 NullFix(G, nu) == LET nu2 == NullStep(G, nu) IN IF nu2 = nu THEN nu ELSE NullFix(G, nu2)
 Nullable(G) == NullFix(G, [n \in NodesOf(G) |-> FALSE])
@@ -65,7 +66,8 @@ Reach(G, nu) == ReachFix(G, [n \in NodesOf(G) |-> Succ(G, nu, n)])
 Admissible(G) ==
   LET nu == Nullable(G)
       R == Reach(G, nu)
-  IN /\ \A n \in NodesOf(G) : \A e \in LeftEdges(G, nu, n) : e[2] => n \notin R[e[1]] /\ n # e[1]
+  IN /\ \A n \in NodesOf(G) : G[n].k \notin {"ltrim", "rtrim"}      \* trims have no denotation here (C10 has its own specification)
+     /\ \A n \in NodesOf(G) : \A e \in LeftEdges(G, nu, n) : e[2] => n \notin R[e[1]] /\ n # e[1]
      /\ \A n \in NodesOf(G) : G[n].k = "seq" /\ G[n].mode \in {"many", "many1"} => ~nu[G[n].kids[1]]
      /\ \A n \in NodesOf(G) : G[n].k = "seq" /\ G[n].mode \in {"sepby", "sepby1"} =>
                                   ~nu[G[n].kids[1]] /\ ~nu[G[n].kids[2]]
